@@ -5,6 +5,8 @@ package main
 // single-byte substitution / truncation; TLC judges them with Crc.tla (CrcTrace.tla).
 
 import (
+	"fmt"
+	"sync"
 	"sort"
 	"bufio"
 	"bytes"
@@ -209,6 +211,54 @@ func crcRun(in []byte) (interface{}, error) {
 				ncrc++
 			}
 		}
+	}
+	// ---- several loaders at work at the same time (several sources / several input files): every DUMP payload a loader emits
+	// carries the CRC-64 of its own bytes
+	mkRdb := func(tag string) []byte {
+		w := rdbref.NewFile(9)
+		for i := 0; i < 60; i++ {
+			v := make([]byte, 16384+rnd.Intn(49152))
+			rnd.Read(v)
+			_, body, _ := rdbref.EncodeValue(rdbref.Value{Kind: "string", Str: v}, rdbref.Enc{Type: rdbref.TString})
+			w.Key([]byte(fmt.Sprintf("%s:%d", tag, i)), rdbref.TString, body)
+		}
+		return w.Finish(true)
+	}
+	for _, nl := range []int{1, 2, 4} {
+		files := make([][]byte, nl)
+		for i := range files {
+			files[i] = mkRdb(fmt.Sprint("l", i))
+		}
+		var wg sync.WaitGroup
+		var cmu sync.Mutex
+		total, bad := 0, 0
+		for i := 0; i < nl; i++ {
+			wg.Add(1)
+			go func(b []byte) {
+				defer wg.Done()
+				defer func() { recover() }()
+				l := rdb.NewLoader(bytes.NewReader(b))
+				if l.Header() != nil {
+					return
+				}
+				for {
+					e, err := l.NextBinEntry()
+					if err != nil || e == nil {
+						return
+					}
+					_, _, _, perr := rdbref.ParseDump(e.Value) // verifies the trailer against the reference CRC-64
+					cmu.Lock()
+					total++
+					if perr != nil {
+						bad++
+					}
+					cmu.Unlock()
+				}
+			}(files[i])
+		}
+		wg.Wait()
+		tr.Emit(tracer.Ev{"e": "conc", "loaders": nl, "payloads": total, "bad": bad, "expected": nl * 60})
+		ncrc++
 	}
 	// ---- artefacts and fault enumeration
 	nfault := 0
